@@ -57,6 +57,12 @@ Theorem C12_taking : forall pat M h stale, NoDup M -> linked h M -> (forall a, I
              NoDup (somes (fst (take_ends M pat))) /\ (forall a, In a (somes (fst (take_ends M pat))) -> In a M).
 Proof. exact tk_spec. Qed.
 
+(* ... and what it hands out is exactly what the abstract model says: take_ends of the entry list *)
+Theorem C12_taking_items : forall h seal l pat stale, RI h seal l ->
+  exists h', tk_run h (start (rev l) stale) pat = Some (h', map (option_map kv) (fst (take_ends (absl h l) pat))) /\
+             (forall a, In a (snd (take_ends (rev l) pat)) -> live h' a).
+Proof. exact taking_items_abstract. Qed.
+
 Example C12_example : take_ends [1; 2; 3; 4; 5] [true; false; false; false; true; false; true]
   = ([Some 1; Some 5; Some 4; Some 3; Some 2; None; None], []).
 Proof. reflexivity. Qed.
@@ -67,3 +73,4 @@ Print Assumptions C12_drain.
 Print Assumptions C12_into_iter.
 Print Assumptions C12_cursor.
 Print Assumptions C12_taking.
+Print Assumptions C12_taking_items.
